@@ -1650,6 +1650,11 @@ return 1;""",
                 )
 
             if node.PY_error_pattern:
+                if node.PY_error_pattern not in self.patterns:
+                    raise RuntimeError(
+                        "PY_error_pattern '{}' is not defined in patterns"
+                        " at line {}".format(
+                            node.PY_error_pattern, node.linenumber))
                 lfmt = util.Scope(fmt)
                 lfmt.c_var = fmt.C_result
                 lfmt.cxx_var = fmt.C_result
